@@ -18,7 +18,7 @@ import (
 
 func init() {
 	register(&Rule{ID: "T-formats", Min: 6, Run: runTFormats,
-		Doc: "regex and format rules: Regex.Validate accepts a value iff an RE2 *search* ((*regexp.Regexp).Match / MatchString) of the rule's expression in the decoded string succeeds; Date and DateTime accept iff time.Parse with the layouts 2006-01-02 resp. RFC 3339 accepts the decoded string; Uri, Email and UUID accept only when their parser (url.ParseRequestURI, mail.ParseAddress, the UUID parser) was given the decoded string and accepted it — whatever other tests the rule makes, the verdict never comes from the raw token or from another function"})
+		Doc: "regex and format rules: Regex.Validate accepts a value iff an RE2 *search* ((*regexp.Regexp).Match / MatchString) of the rule's expression in the decoded string succeeds; Date and DateTime accept iff time.Parse with the layouts 2006-01-02 resp. RFC 3339 accepts the decoded string; Uri, Email and UUID accept only when their parser (url.ParseRequestURI, mail.ParseAddress, the UUID parser) was given the decoded string and accepted it, a URI moreover only when the parsed URL is absolute (IsAbs) and has a host name (Hostname(), which leaves the port out) — whatever other tests the rule makes, the verdict never comes from the raw token or from another function"})
 }
 
 type formatSpec struct {
@@ -27,6 +27,7 @@ type formatSpec struct {
 	layout  string // time layout, when pinned
 	exact   bool   // accept iff the oracle accepts (otherwise: accepting requires the oracle to accept)
 	comment string
+	also    map[string]string // further atoms an accepting path must have consulted, with the answer required
 }
 
 func runTFormats(c *load.Ctx, r *report.RuleResult) {
@@ -85,11 +86,12 @@ func runTFormats(c *load.Ctx, r *report.RuleResult) {
 		}
 	}
 	specs := []formatSpec{
-		{"Regex", "search(unquote(value))", "", true, "an RE2 search in the decoded string"},
-		{"Date", "time.Parse(2006-01-02,unquote(value))", "2006-01-02", true, "YYYY-MM-DD"},
-		{"DateTime", "time.Parse(2006-01-02T15:04:05Z07:00,unquote(value))", "2006-01-02T15:04:05Z07:00", true, "RFC 3339"},
-		{"Uri", "url.ParseRequestURI(unquote(value))", "", false, "the URL parser on the decoded string"},
-		{"UUID", "uuid.parse(unquote(value))", "", false, "the UUID parser on the decoded string"},
+		{"Regex", "search(unquote(value))", "", true, "an RE2 search in the decoded string", nil},
+		{"Date", "time.Parse(2006-01-02,unquote(value))", "2006-01-02", true, "YYYY-MM-DD", nil},
+		{"DateTime", "time.Parse(2006-01-02T15:04:05Z07:00,unquote(value))", "2006-01-02T15:04:05Z07:00", true, "RFC 3339", nil},
+		{"Uri", "url.ParseRequestURI(unquote(value))", "", false, "the URL parser on the decoded string",
+			map[string]string{"url.IsAbs": "true", "url.Hostname": "some"}},
+		{"UUID", "uuid.parse(unquote(value))", "", false, "the UUID parser on the decoded string", nil},
 	}
 	emailProvenance(c, r)
 	for _, sp := range specs {
@@ -143,6 +145,14 @@ func runTFormats(c *load.Ctx, r *report.RuleResult) {
 				problems = append(problems, fmt.Sprintf("a value is accepted on path {%s} without consulting %s (%s)", o.Valuation(), sp.oracle, sp.comment))
 			case accepted && !okAns:
 				problems = append(problems, fmt.Sprintf("a value is accepted although %s fails", sp.oracle))
+			case accepted && sp.also != nil:
+				for _, atom := range sortedKeys(sp.also) {
+					if got, asked := val[atom]; !asked {
+						problems = append(problems, fmt.Sprintf("a value is accepted on path {%s} without consulting %s", o.Valuation(), atom))
+					} else if got != sp.also[atom] {
+						problems = append(problems, fmt.Sprintf("a value is accepted although %s answers %s", atom, got))
+					}
+				}
 			case !accepted && sp.exact && consulted && okAns:
 				problems = append(problems, fmt.Sprintf("a value is rejected on path {%s} although %s succeeds", o.Valuation(), sp.oracle))
 			case !accepted && sp.exact && !consulted:
